@@ -263,10 +263,10 @@ class Oracle:
             hit = [v for p, v in comp_mods(k) if p == rest[1:]]
             if hit:
                 return (prefix, hit[-1], "decl")
-        for mods in alias_mods:
+        for i, mods in enumerate(alias_mods):
             hit = [v for p, v in mods if p == want_tail]
             if hit:
-                return (None, hit[-1], "type")
+                return (None, hit[-1], "type%d" % (len(alias_mods) - i))
         return None
 
     def check_targets(self, target):
@@ -294,10 +294,14 @@ class Oracle:
                             raise Reject("type definition modification is not a literal")
                 continue
             cpath = it[2]
-            for (k, decl, chain) in self.members(cpath):
-                for mods in chain:
+
+            def ext_mods(cp):
+                for b, mods in self.ext_list(cp):
                     for p, _ in mods:
-                        walk_path(cpath, p, "extends clause")
+                        walk_path(b, p, "extends clause")
+                    ext_mods(b)
+            ext_mods(cpath)
+            for (k, decl, chain) in self.members(cpath):
                 for p, _ in comp_mods(k):
                     walk_path(cpath, (k["name"],) + p, "declaration of " + k["name"])
 
@@ -540,15 +544,18 @@ def oracle_c08(lib, target, obs):
         return ("flat variables differ from the leaves", sorted(vars_), sorted(ovars))
     veq = {l[1]: r for l, r in value_eqs}
     flow = set(v["name"] for v in vars_.values() if "flow" in v["prefixes"])
-    oveq = {}
+    olist = {}
     for l, r in obs["eqs"]:
-        if l[0] != "sym":
-            continue
-        if l[1] in flow and r == ["num", 0] and l[1] not in veq:
-            continue
-        if l[1] in oveq:
-            return ("two binding equations for %s" % l[1], veq.get(l[1]), [oveq[l[1]], r])
-        oveq[l[1]] = r
+        if l[0] == "sym":
+            olist.setdefault(l[1], []).append(r)
+    oveq = {}
+    for n, rs in olist.items():
+        if n in flow and ["num", 0] in rs:
+            rs.remove(["num", 0])       # the unconnected-flow equation (C09's business)
+        if len(rs) > 1:
+            return ("two binding equations for %s" % n, veq.get(n), rs)
+        if rs:
+            oveq[n] = rs[0]
     for n, w in vars_.items():
         v = ovars[n]
         for a in ATTRS:
@@ -1070,6 +1077,8 @@ def triggers(lib, target):
                     walk_spelling(cdef["alias"]["mods"], orc.ix.resolve(cp[:-1], cdef["alias"]["base"]))
                 for e in cdef["extends"]:
                     walk_spelling(e["mods"], orc.ix.resolve(cp, e["ref"]))
+                    if is_local(cp) and any(len(m["name"]) > 1 for m in e["mods"]):
+                        out.add("RE")      # the dotted name is shortened in place at the first instantiation
                 for k in cdef["comps"]:
                     ty = orc.comp_type(k, cp)
                     walk_spelling(k["mods"], ("leaf",) if ty[0] == "leaf" else ty[1])
@@ -1085,6 +1094,8 @@ def triggers(lib, target):
                     out.add("F15")
         for (path, attr, w, expr, nalias, kind) in bindings:
             if w is None:
+                if int(kind[4:]) >= 3:
+                    out.add("AL2")
                 continue
             leaf_level = tuple(path[:-1])
             if nalias >= 2 and attr is not None:
@@ -1092,9 +1103,10 @@ def triggers(lib, target):
             if nalias >= 1 and (kind == "ext" or tuple(w) != leaf_level):
                 lv = orc.levels(root, path)
                 k, decl, _ = lv[-1][2]
-                chain_classes = [orc.ix.resolve(decl, k["type"])]
+                chain_classes = [orc.ix.resolve(decl, k["type"]), decl]
                 for (_, _, (kk, dd, _)) in lv[:-1]:
                     chain_classes.append(orc.ix.resolve(dd, kk["type"]))
+                    chain_classes.append(dd)
                 if any(is_local(c) for c in chain_classes if not isinstance(c, str)):
                     out.add("RE")
             lost = attr is not None and tuple(w) != leaf_level
